@@ -2749,7 +2749,7 @@ class Deb822FileElement(Deb822Element):
         # Note the special case where the file ends on a comment; here we insert a whitespace too
         # to be sure.  Otherwise we would have to check that there is an empty line before that
         # comment and that is too much effort.
-        if tail_element and not isinstance(tail_element, Deb822WhitespaceToken):
+        if tail_element is not None and not isinstance(tail_element, Deb822WhitespaceToken):
             if isinstance(tail_element, Deb822ParagraphElement):
                 # Without this, the separator below would merely terminate the
                 # last line of a file that lacks its final newline and the two
